@@ -102,7 +102,7 @@ def value_for(r, tok_or_cls, hostile=True):
     return None
 
 
-def respell(r, tok):
+def respell(r, tok, style=None):
     """Another raw text for the token's *current* value (same meaning, different characters), or None."""
     name = type(tok).__name__
     raw = tok.raw_text
@@ -110,7 +110,7 @@ def respell(r, tok):
         if name == 'BlockComment':
             ind = tok.indent
             lines = tok.value.split('\n')
-            style = r.choice(['tight', 'wide', 'ragged'])
+            style = style or r.choice(['tight', 'wide', 'ragged'])
             if style == 'ragged' and ind and len(lines) > 1:
                 # an indented block comment may indent every line differently; the first line's blanks are the token's indent
                 inds = [ind] + [r.choice([' ', '  ', '\t', '   \t', ind + ' ']) for _ in lines[1:]]
